@@ -194,26 +194,48 @@ Theorem C13_equal_scripts_behave_equally : forall s1 s2 b, exec s1 b = exec s2 b
 Proof. intros s1 s2 b H. rewrite H. reflexivity. Qed.
 Print Assumptions C13_equal_scripts_behave_equally.
 
-(* ---- where the faithful model REFUTES representation independence (known findings) *)
-(* KF-C13-1 *)
-Theorem C13_ordered_enum_refuted :
-  ~ beq (fst (exec (three ++ [ord [REnum 0; REnum 1; REnum 2]]) (empty h0)))
-        (fst (exec (three ++ [ord [RName 0; RName 1; RName 2]]) (empty h0))).
-Proof. exact ordered_enum_refuted. Qed.
-Print Assumptions C13_ordered_enum_refuted.
+(* ---- the ordered helper is independent of how its states are given (names, Enum members,
+   registered State objects): rotation to the initial state, loop_includes_initial and the
+   per-edge arguments apply alike (was KF-C13-1 / D27 before the fix in /repo) *)
+Theorem C13_ordered_repr : forall o l b, forallb (ref_ok b) l = true ->
+  add_ordered (with_states o (Some (map name_ref l))) b = add_ordered (with_states o (Some l)) b.
+Proof. exact ordered_repr. Qed.
+Print Assumptions C13_ordered_repr.
 
-(* KF-C13-2 *)
-Theorem C13_remove_enum_refuted :
-  ~ beq (fst (exec (go01 ++ [RemoveTransition 2 (FList [REnum 0]) FWild]) (empty h0)))
-        (fst (exec (go01 ++ [RemoveTransition 2 (FList [RName 0]) FWild]) (empty h0))).
-Proof. exact remove_enum_refuted. Qed.
-Print Assumptions C13_remove_enum_refuted.
+Theorem C13_ordered_ts_repr : forall b o l,
+  ordered_ts b (with_states o (Some (map name_ref l))) =
+  match ordered_ts b (with_states o (Some l)) with
+  | inl e => inl e
+  | inr ts => inr (map name_tspec ts)
+  end.
+Proof. exact ordered_ts_names. Qed.
+Print Assumptions C13_ordered_ts_repr.
 
-(* on HierarchicalMachine the filter of remove_transition is representation independent *)
-Theorem C13_remove_filter_repr_hsm : forall fs fd t,
-  t_match true fs fd t =
-  t_match true (match fs with FWild => FWild | FList l => FList (map name_ref l) end)
-               (match fd with FWild => FWild
-                | FList l => FList (map (fun o => match o with Some r => Some (name_ref r) | None => None end) l) end) t.
-Proof. exact remove_filter_repr_hsm. Qed.
-Print Assumptions C13_remove_filter_repr_hsm.
+Theorem C13_ordered_default_states : forall o b,
+  add_ordered (with_states o None) b = add_ordered (with_states o (Some (map RName (state_names b)))) b.
+Proof. exact ordered_default_states. Qed.
+Print Assumptions C13_ordered_default_states.
+
+(* the former counterexample: states s0 s1 s2, initial s1, no loop, given as Enum members *)
+Example C13_ordered_enum_example :
+  exec (three ++ [ord [REnum 0; REnum 1; REnum 2]]) (empty h0) =
+  exec (three ++ [ord [RName 0; RName 1; RName 2]]) (empty h0).
+Proof. vm_compute. reflexivity. Qed.
+
+(* ---- the filter of remove_transition is independent of the representation of its
+   elements, on Machine as well as on HierarchicalMachine (was KF-C13-2 / D28) *)
+Theorem C13_remove_filter_repr : forall trig fs fd b,
+  h_hsm (b_hdr b) && filt_enum_bad b fs fd = false ->
+  remove_transition trig (name_filt_src fs) (name_filt_dst fd) b = remove_transition trig fs fd b.
+Proof. exact remove_filter_repr. Qed.
+Print Assumptions C13_remove_filter_repr.
+
+Theorem C13_remove_match_repr : forall fs fd t,
+  t_match (name_filt_src fs) (name_filt_dst fd) t = t_match fs fd t.
+Proof. exact t_match_names. Qed.
+Print Assumptions C13_remove_match_repr.
+
+Example C13_remove_enum_example :
+  exec (go01 ++ [RemoveTransition 2 (FList [REnum 0]) FWild]) (empty h0) =
+  exec (go01 ++ [RemoveTransition 2 (FList [RName 0]) FWild]) (empty h0).
+Proof. vm_compute. reflexivity. Qed.
